@@ -102,6 +102,14 @@ func unitsForProperty(w *World, prop string, dirs []string) []*UnitResult {
 				}
 				continue
 			}
+			if strings.HasPrefix(key, "immutable:") {
+				for _, d := range cs.Immutable {
+					if d.Name == strings.TrimPrefix(key, "immutable:") && (prop == "" || hasProp(d.Props, prop)) {
+						units = append(units, w.verifyImmutable(p, d))
+					}
+				}
+				continue
+			}
 			ct := cs.Funcs[key]
 			if ct.Assumed {
 				continue
